@@ -46,9 +46,17 @@ def _run_trace_here(prop, trace):
     return eng.execute(trace)
 
 
+def _run_with_prelude_here(prop, trace):
+    """a trace may carry a prelude: earlier runs of the same worker chunk whose left-over process state the
+    violation depends on; they are executed first, in order, in the same process, and their verdicts ignored"""
+    for pt in trace.get("prelude") or []:
+        _run_trace_here(prop, pt)
+    return _run_trace_here(prop, {k: v for k, v in trace.items() if k != "prelude"})
+
+
 def run_trace(prop, trace):
-    """one simulated run, in its own forked child (see core.isolated)"""
-    return core.isolated(_run_trace_here, prop, trace)
+    """one simulated run (with its prelude, if any), in its own forked child (see core.isolated)"""
+    return core.isolated(_run_with_prelude_here, prop, trace)
 
 
 def _gen_and_run(prop, seed, index, tier):
@@ -64,6 +72,14 @@ CHUNK_SIZE = {"C05": 20, "C06": 20, "C19": 400, "C20": 250}
 
 
 def _chunk(args):
+    """a chunk of consecutive run indices, executed in a fresh child of the worker: what a run can see of earlier
+    runs is then limited to the runs of its own chunk (fixed boundaries => reproducible from the seed alone)"""
+    if getattr(engine_for(args[0]), "ISOLATE_RUNS", False):
+        return _chunk_body(args)          # these engines already fork once per run
+    return core.isolated(_chunk_body, args)
+
+
+def _chunk_body(args):
     prop, seed, tier, indices, want_samples, want_eds = args
     faulthandler.enable()
     faulthandler.dump_traceback_later(CHUNK_WALL_LIMIT, exit=True)
@@ -171,14 +187,61 @@ def run_many(prop, seed, tier, indices, workers, want_eds=None):
 
 
 # ----------------------------------------------------------------------------- shrinking / replay
+def reproduces(prop, trace, sig):
+    try:
+        v = run_trace(prop, trace)["violation"]
+    except core.HarnessError:
+        return False
+    return v is not None and signature(v) == sig
+
+
+def with_prelude(prop, seed, tier, index, trace, sig):
+    """the violation of run `index` did not reproduce on its own: find the shortest suffix of the earlier runs of its
+    chunk that, executed first in the same process, makes it reproduce"""
+    size = CHUNK_SIZE.get(prop, 100)
+    start = (index // size) * size
+    earlier = [make_trace(prop, seed, j, tier) for j in range(start, index)]
+    t = dict(trace)
+    t["prelude"] = earlier
+    if not earlier or not reproduces(prop, t, sig):
+        return None
+    # drop runs from the front, then one by one
+    lo = 0
+    step = max(1, len(earlier) // 2)
+    while step >= 1:
+        while lo + step <= len(earlier):
+            t2 = dict(trace)
+            t2["prelude"] = earlier[lo + step:]
+            if reproduces(prop, t2, sig):
+                lo += step
+            else:
+                break
+        step //= 2
+    keep = earlier[lo:]
+    i = 0
+    while i < len(keep) and len(keep) > 1:
+        t2 = dict(trace)
+        t2["prelude"] = keep[:i] + keep[i + 1:]
+        if reproduces(prop, t2, sig):
+            keep = keep[:i] + keep[i + 1:]
+        else:
+            i += 1
+    t = dict(trace)
+    t["prelude"] = keep
+    return t
+
+
 def shrink(prop, trace, sig, budget=400):
     eng = engine_for(prop)
     cur = trace
     tried = 0
     improved = True
+    prelude = trace.get("prelude")
     while improved and tried < budget:
         improved = False
-        for cand in eng.shrink_candidates(cur):
+        for cand in eng.shrink_candidates({k: v for k, v in cur.items() if k != "prelude"}):
+            if prelude:
+                cand["prelude"] = prelude
             tried += 1
             if tried > budget:
                 break
@@ -215,6 +278,8 @@ def replay(path):
     res = run_trace(prop, t)
     v = res["violation"]
     exp = t.get("violation")
+    if t.get("prelude"):
+        print("(replayed after a prelude of %d earlier run(s) in the same process)" % len(t["prelude"]))
     print("replay %s property=%s events_digest=%s" % (path, prop, core.digest(res["events"])[:16]))
     if v is None:
         print("no violation on this tree (recorded: %s)" % (exp and exp.get("clause")))
@@ -248,8 +313,11 @@ def check(prop, tier, runs=None, workers=None, start=0, evidence=True):
     again = run_many(prop, seed, tier, sample_idx, 1)
     first = merged["eds"]
     nondet = [i for i in sample_idx if again["eds"].get(i) != first.get(i)]
-    if nondet:
+    if nondet and not merged["viols"]:
         raise core.HarnessError("non-deterministic replay of run indices %s" % nondet[:5])
+    if nondet:
+        print("note: %d sampled runs differ when re-executed on their own (expected when state of the code under test "
+              "outlives a history; the violations below carry the earlier runs they need)" % len(nondet))
     # ... and once more in a fresh interpreter under another hash seed
     import subprocess
     env = dict(os.environ, PYTHONHASHSEED="random", VERIF_SEED=str(seed))
@@ -261,7 +329,7 @@ def check(prop, tier, runs=None, workers=None, start=0, evidence=True):
     except Exception:
         raise core.HarnessError("fresh-interpreter determinism probe failed: %s" % pr.stderr.decode()[-500:])
     nondet = [i for i in sample_idx if fresh.get(str(i)) != first.get(i)]
-    if nondet:
+    if nondet and not merged["viols"]:
         raise core.HarnessError("non-deterministic across interpreters: run indices %s" % nondet[:5])
     viol_lines = []
     replay_paths = []
@@ -273,8 +341,19 @@ def check(prop, tier, runs=None, workers=None, start=0, evidence=True):
         seen.add(sig)
         if len(seen) > 4:
             break
+        if not reproduces(prop, tr, sig):
+            # seen in a worker, not reproducible from a clean process: it depends on what earlier runs of the same
+            # chunk left behind in the process; carry those runs along as a prelude
+            tp = with_prelude(prop, seed, tier, i, tr, sig)
+            if tp is not None:
+                print("note: run %d violates only after %d earlier run(s) of its chunk in the same process (state that "
+                      "outlives a history); they are kept as the replay's prelude" % (i, len(tp["prelude"])))
+                tr = tp
         small, tried = shrink(prop, tr, sig)
-        res = run_trace(prop, small)
+        try:
+            res = run_trace(prop, small)
+        except core.HarnessError:
+            res = {"violation": None}
         vv = res["violation"] or v
         path = write_replay(prop, small, vv, shrunk_from={"run_index": i, "ops": eng.trace_size(tr)[0],
                                                           "candidates_tried": tried})
